@@ -196,15 +196,16 @@ impl Disassemble for dr::Module {
 // in order to match `spirv-dis`'s output
 fn disas_constant(inst: &dr::Instruction, type_tracker: &tracker::TypeTracker) -> String {
     debug_assert_eq!(inst.class.opcode, spirv::Op::Constant);
-    debug_assert_eq!(inst.operands.len(), 1);
-    let literal_type = type_tracker.resolve(inst.result_type.unwrap());
-    match inst.operands[0] {
-        LiteralBit32(value) => disas_instruction(inst, " ", |_| {
-            disas_literal_bit_operand(value, &literal_type.unwrap())
-        }),
-        LiteralBit64(value) => disas_instruction(inst, " ", |_| {
-            disas_literal_bit_operand(value, &literal_type.unwrap())
-        }),
+    // The literal can only be interpreted if its type is a known integer or
+    // float type; otherwise fall back to showing the raw bit pattern.
+    let literal_type = inst.result_type.and_then(|t| type_tracker.resolve(t));
+    match (inst.operands.as_slice(), literal_type) {
+        (&[LiteralBit32(value)], Some(ty)) => {
+            disas_instruction(inst, " ", |_| disas_literal_bit_operand(value, &ty))
+        }
+        (&[LiteralBit64(value)], Some(ty)) => {
+            disas_instruction(inst, " ", |_| disas_literal_bit_operand(value, &ty))
+        }
         _ => inst.disassemble(),
     }
 }
